@@ -49,8 +49,25 @@ pub struct TypeDef { pub name: String, pub desc: Option<Desc>, pub kind: Kind, p
     pub ext_split: usize }
 #[derive(Clone, Debug)]
 pub struct DirectiveDef { pub name: String, pub desc: Option<Desc>, pub args: Vec<InputVal>, pub repeatable: bool, pub locations: Vec<String>, pub builtin: bool }
+/// How parts of the same schema are spread over `extend …` blocks (audit G5).  The description — and so the
+/// reference response and the model case — is the merged schema in every style.
+#[derive(Clone, Copy, Debug, Default, PartialEq)]
+pub struct ExtStyle {
+    /// the last interface of every `implements` list is added by `extend type/interface X implements I`
+    pub impl_split: bool,
+    /// the last member of every union with ≥ 2 members is added by `extend union U = M`
+    pub union_split: bool,
+    /// `@specifiedBy` is written on `extend scalar S`
+    pub scalar_split: bool,
+    /// `mutation:` / `subscription:` are added by `extend schema { … }` (explicit schema definitions only)
+    pub roots_split: bool,
+    /// all extensions are written BEFORE the definitions they extend
+    pub ext_first: bool,
+}
+
 #[derive(Clone, Debug)]
 pub struct SchemaG {
+    pub ext: ExtStyle,
     pub desc: Option<Desc>,
     pub query: String,
     pub mutation: Option<String>,
@@ -119,11 +136,15 @@ fn fields_sdl(fs: &[Field]) -> String {
 impl SchemaG {
     pub fn sdl(&self) -> String {
         let mut s = String::new();
+        let mut exts = String::new();
         if self.explicit || self.desc.is_some() {
             s.push_str(&desc_sdl(&self.desc, ""));
             s.push_str(&format!("schema {{ query: {}", self.query));
-            if let Some(m) = &self.mutation { s.push_str(&format!(" mutation: {m}")); }
-            if let Some(m) = &self.subscription { s.push_str(&format!(" subscription: {m}")); }
+            let split = self.ext.roots_split && (self.mutation.is_some() || self.subscription.is_some());
+            let mut rest = String::new();
+            if let Some(m) = &self.mutation { rest.push_str(&format!(" mutation: {m}")); }
+            if let Some(m) = &self.subscription { rest.push_str(&format!(" subscription: {m}")); }
+            if split { exts.push_str(&format!("extend schema {{{rest} }}\n")); } else { s.push_str(&rest); }
             s.push_str(" }\n");
         }
         for d in self.directives.iter().filter(|d| !d.builtin) {
@@ -131,19 +152,30 @@ impl SchemaG {
             let args = if d.args.is_empty() { String::new() } else { format!("({})", d.args.iter().map(|a| inputval_sdl(a, "", true)).collect::<Vec<_>>().join(", ")) };
             s.push_str(&format!("directive @{}{args}{} on {}\n", d.name, if d.repeatable { " repeatable" } else { "" }, d.locations.join(" | ")));
         }
-        let mut exts = String::new();
         for t in self.types.iter().filter(|t| !t.builtin) {
             s.push_str(&desc_sdl(&t.desc, ""));
-            let imp = |i: &Vec<String>| if i.is_empty() { String::new() } else { format!(" implements {}", i.join(" & ")) };
+            let imp = |i: &[String]| if i.is_empty() { String::new() } else { format!(" implements {}", i.join(" & ")) };
             match &t.kind {
-                Kind::Scalar { specified_by } => s.push_str(&format!("scalar {}{}\n", t.name, specified_by.as_ref().map(|u| format!(" @specifiedBy(url: \"{}\")", esc(u))).unwrap_or_default())),
+                Kind::Scalar { specified_by } => {
+                    let dir = specified_by.as_ref().map(|u| format!(" @specifiedBy(url: \"{}\")", esc(u))).unwrap_or_default();
+                    if self.ext.scalar_split && specified_by.is_some() {
+                        s.push_str(&format!("scalar {}\n", t.name));
+                        exts.push_str(&format!("extend scalar {}{dir}\n", t.name));
+                    } else { s.push_str(&format!("scalar {}{dir}\n", t.name)); }
+                }
                 Kind::Object { implements, fields } | Kind::Interface { implements, fields } => {
                     let kw = if matches!(t.kind, Kind::Object { .. }) { "type" } else { "interface" };
                     let cut = fields.len() - t.ext_split.min(fields.len().saturating_sub(1));
-                    s.push_str(&format!("{kw} {}{} {{\n{}}}\n", t.name, imp(implements), fields_sdl(&fields[..cut])));
+                    let icut = if self.ext.impl_split && !implements.is_empty() { implements.len() - 1 } else { implements.len() };
+                    s.push_str(&format!("{kw} {}{} {{\n{}}}\n", t.name, imp(&implements[..icut]), fields_sdl(&fields[..cut])));
+                    if icut < implements.len() { exts.push_str(&format!("extend {kw} {}{}\n", t.name, imp(&implements[icut..]))); }
                     if cut < fields.len() { exts.push_str(&format!("extend {kw} {} {{\n{}}}\n", t.name, fields_sdl(&fields[cut..]))); }
                 }
-                Kind::Union { members } => s.push_str(&format!("union {} = {}\n", t.name, members.join(" | "))),
+                Kind::Union { members } => {
+                    let mcut = if self.ext.union_split && members.len() >= 2 { members.len() - 1 } else { members.len() };
+                    s.push_str(&format!("union {} = {}\n", t.name, members[..mcut].join(" | ")));
+                    if mcut < members.len() { exts.push_str(&format!("extend union {} = {}\n", t.name, members[mcut..].join(" | "))); }
+                }
                 Kind::Enum { values } => {
                     let cut = values.len() - t.ext_split.min(values.len().saturating_sub(1));
                     let vs = |vs: &[EnumVal]| vs.iter().map(|v| format!("{}  {}{}\n", desc_sdl(&v.desc, "  "), v.name, dep_sdl(&v.dep))).collect::<String>();
@@ -158,8 +190,7 @@ impl SchemaG {
                 }
             }
         }
-        s.push_str(&exts);
-        s
+        if self.ext.ext_first { format!("{exts}{s}") } else { format!("{s}{exts}") }
     }
     fn get(&self, n: &str) -> Option<&TypeDef> { self.types.iter().find(|t| t.name == n) }
 }
@@ -587,6 +618,11 @@ pub fn one(ctx: &mut Ctx, user: &SchemaG, label: &str) {
     let c = Compiled { schema };
     let full = complete(user);
     ctx.stat(label);
+    if sdl.contains("extend schema") { ctx.stat("ext:schema-roots"); }
+    if sdl.contains("extend scalar") { ctx.stat("ext:scalar-specifiedBy"); }
+    if sdl.contains("extend union") { ctx.stat("ext:union-member"); }
+    if sdl.lines().any(|l| (l.starts_with("extend type") || l.starts_with("extend interface")) && l.contains(" implements ")) { ctx.stat("ext:implements"); }
+    if user.ext.ext_first && sdl.starts_with("extend") { ctx.stat("ext:extension-before-definition"); }
 
     // 1. the standard introspection query
     match catch(|| run_query(&c, FULL_QUERY, &[])) {
@@ -688,6 +724,21 @@ pub fn one(ctx: &mut Ctx, user: &SchemaG, label: &str) {
                     }
                 }
             }
+            // a composite concrete root field (with its own selection set, aliases, an inline fragment) is skipped too
+            let comp: Vec<&Field> = fields.iter().filter(|f| f.args.iter().all(|a| !a.ty.is_non_null() || a.default.is_some()) && matches!(kind_of(&full, inner_name(&f.ty)), "OBJECT" | "INTERFACE" | "UNION")).collect();
+            if let Some(cf) = comp.first() {
+                let q3 = format!("{{ a: __typename {0} {{ __typename }} ... on {1} {{ b: {0} {{ t: __typename }} }} z: __typename }}", cf.name, full.query);
+                ctx.stat("skiproots_composite");
+                match catch(|| run_query(&c, &q3, &[])) {
+                    Err(p) => ctx.fail("introspection-panics", &input, &p),
+                    Ok(Err(e)) => ctx.fail("introspection-request-error", &format!("{input} || {q3}"), &e),
+                    Ok(Ok((data, nerr))) => {
+                        let keys: Vec<String> = match &data { Some(JV::Obj(kvs)) => kvs.iter().map(|(k, _)| k.clone()).collect(), _ => vec!["<null>".into()] };
+                        let out = format!("errors={nerr} keys={}", keys.join(","));
+                        if out != "errors=0 keys=a,z" { ctx.fail("introspection-concrete-roots", &format!("{input} || {q3}"), &format!("{out}; expected errors=0 keys=a,z")); }
+                    }
+                }
+            }
             let q2 = format!("{{ a: __typename {0} b: {0} ...F z: __typename }} fragment F on {1} {{ c: {0} }}", f.name, full.query);
             match catch(|| run_query(&c, &q2, &[])) {
                 Err(p) => ctx.fail("introspection-panics", &input, &p),
@@ -707,7 +758,7 @@ pub fn one(ctx: &mut Ctx, user: &SchemaG, label: &str) {
 
 fn gen_desc(rng: &mut Rng) -> Option<Desc> {
     if !rng.chance(2, 5) { return None; }
-    let words = ["a thing", "The \"quoted\" one", "back\\slash", "naïve café ☃", "tab\there", "x", "# not a comment", "ends with quote\"", "{braces} [brackets]"];
+    let words = ["a thing", "The \"quoted\" one", "back\\slash", "naïve café ☃", "tab\there", "x", "# not a comment", "ends with quote\"", "{braces} [brackets]", ""];
     if rng.chance(1, 3) {
         let n = 1 + rng.below(3);
         let lines: Vec<String> = (0..n).map(|_| rng.pick(&["first line", "second \"line\"", "with \\ backslash", "naïve ☃", "- item", "x"]).to_string()).collect();
@@ -857,7 +908,7 @@ pub fn gen_schema(rng: &mut Rng) -> SchemaG {
         let mut fields: Vec<Field> = vec![];
         if n_iface > 0 && rng.chance(1, 2) && oi < n_obj {
             let i = rng.below(n_iface);
-            if i == 1 { implements.push("Face1".into()); implements.push("Face0".into()); } else { implements.push(format!("Face{i}")); }
+            if i == 1 { if rng.chance(1, 2) { implements.push("Face1".into()); implements.push("Face0".into()); } else { implements.push("Face0".into()); implements.push("Face1".into()); } } else { implements.push(format!("Face{i}")); }
             fields.extend(iface_fields[i].clone());
             if n_iface > 2 && i != 2 && rng.chance(1, 3) { implements.push("Face2".into()); fields.extend(iface_fields[2].clone()); }
         }
@@ -880,12 +931,18 @@ pub fn gen_schema(rng: &mut Rng) -> SchemaG {
         for i in 0..1 + rng.below(2) {
             let mut locs: Vec<String> = all.iter().filter(|_| rng.chance(1, 3)).cloned().collect();
             if locs.is_empty() { locs.push(rng.pick(&all).clone()); }
+            // written order is response order: not necessarily the order of the __DirectiveLocation enum
+            if rng.chance(1, 2) { for i in (1..locs.len()).rev() { let j = rng.below(i + 1); locs.swap(i, j); } }
             let d = gen_desc(rng);
             directives.push(DirectiveDef { name: format!("dir{i}"), desc: d, args: gen_args(rng, &names, &inputs), repeatable: rng.chance(1, 2), locations: locs, builtin: false });
         }
     }
     let explicit = custom_roots || rng.chance(1, 3);
-    SchemaG { desc: if explicit && rng.chance(1, 2) { gen_desc(rng) } else { None }, query, mutation, subscription, explicit, types, directives }
+    // how the schema is spread over extensions (half of the schemas: everything in the definitions, as before)
+    let ext = if rng.chance(1, 2) { ExtStyle::default() } else {
+        ExtStyle { impl_split: rng.chance(1, 2), union_split: rng.chance(1, 2), scalar_split: rng.chance(1, 2), roots_split: rng.chance(1, 2), ext_first: rng.chance(1, 3) }
+    };
+    SchemaG { ext, desc: if explicit && rng.chance(1, 2) { gen_desc(rng) } else { None }, query, mutation, subscription, explicit, types, directives }
 }
 
 /// every wrapping of a named type up to three list layers, as the types of the fields of one object
@@ -904,7 +961,7 @@ fn typeref_schema() -> SchemaG {
     for _ in 0..5 { deep = Ty::NonNullList(Box::new(deep)); }
     fields.push(Field { name: "deep".into(), desc: None, args: vec![], ty: deep, dep: None });
     fields.push(Field { name: "ping".into(), desc: None, args: vec![], ty: Ty::Named("Int".into()), dep: None });
-    SchemaG { desc: None, query: "Q".into(), mutation: None, subscription: None, explicit: true, directives: vec![],
+    SchemaG { ext: ExtStyle::default(), desc: None, query: "Q".into(), mutation: None, subscription: None, explicit: true, directives: vec![],
         types: vec![TypeDef { name: "Q".into(), desc: None, kind: Kind::Object { implements: vec![], fields }, builtin: false, ext_split: 0 }] }
 }
 
@@ -934,6 +991,31 @@ fn noncanonical_witnesses(ctx: &mut Ctx) {
 pub fn run(ctx: &mut Ctx) {
     noncanonical_witnesses(ctx);
     one(ctx, &typeref_schema(), "fixed");
+    // extension-style sweep (audit G5): schemas that have something for every style to move, × all 32 styles
+    {
+        let want = if ctx.thorough { 8 } else { 2 };
+        let mut found = 0;
+        let mut seed = 1u64;
+        while found < want && seed < 5000 {
+            let mut r = Rng(seed.wrapping_mul(0x9E3779B97F4A7C15));
+            seed += 1;
+            let g = gen_schema(&mut r);
+            let rich = g.explicit && g.mutation.is_some()
+                && g.types.iter().any(|t| matches!(&t.kind, Kind::Union { members } if members.len() >= 2))
+                && g.types.iter().any(|t| matches!(&t.kind, Kind::Object { implements, .. } if implements.len() >= 2))
+                && g.types.iter().any(|t| matches!(&t.kind, Kind::Interface { implements, .. } if !implements.is_empty()))
+                && g.types.iter().any(|t| matches!(&t.kind, Kind::Scalar { specified_by: Some(_) }))
+                && g.types.iter().any(|t| t.ext_split > 0 && matches!(&t.kind, Kind::Enum { values } if values.len() >= 2));
+            if !rich { continue; }
+            found += 1;
+            for bits in 0..32u32 {
+                let mut g2 = g.clone();
+                g2.ext = ExtStyle { impl_split: bits & 1 != 0, union_split: bits & 2 != 0, scalar_split: bits & 4 != 0, roots_split: bits & 8 != 0, ext_first: bits & 16 != 0 };
+                one(ctx, &g2, "ext_style_sweep");
+            }
+        }
+        ctx.stat_n("ext_style_sweep_schemas", found as u64);
+    }
     let n = if ctx.thorough { 6000 } else { 500 };
     for _ in 0..n {
         let s = gen_schema(&mut ctx.rng);
